@@ -96,3 +96,14 @@ Theorem C02_inline_titles_balanced : forall a s, Exp.fmt s = Exp.FX -> asis s = 
   (forall stk, Tok.run (fst (pim a s)) (Tok.Txt, stk) = (Tok.Txt, stk)) /\
   EqF.eqf (snd (pim a s)) s /\ Inv.out (snd (pim a s)) = Inv.out s /\ Inv.view (snd (pim a s)) = Inv.view s /\ buf (snd (pim a s)) = buf s.
 Proof. exact InvI.pim_spec. Qed.
+
+(* the table-of-contents writer on the real strings (Model/Xhtml.toc_string: the XHTML TOC, the EPUB navigation document and
+   the NCX, i.e. writeTOC after the repair of D4): for every header list, every combination of options (mini, summary,
+   nonum, title) and every counter state, what it writes opens and closes exactly its own elements, nested lists included.
+   Entries are assumed to carry a reference without '>' and a balanced title (what processInlineMacros returns). *)
+Require TocStr.
+Theorem C02_toc_writer_balanced : forall d opts s t s1, Exp.fmt s = Exp.FX -> Forall TocStr.entry_ok (lox_toc s) ->
+  Tok.textual (Xhtml.X.param "document-title" s) ->
+  Xhtml.X.toc_string d opts s = (Some t, s1) -> forall stk, Tok.run t (Tok.Txt, stk) = (Tok.Txt, stk).
+Proof. exact TocStr.toc_string_balanced. Qed.
+Print Assumptions C02_toc_writer_balanced.
